@@ -55,7 +55,11 @@ uint64_t rand_draws_since(uint64_t seed, uint64_t limit);
 // executes the scenario under the currently installed coin; returns per slot the retained (item, weight) lists.
 // With stride_log != nullptr (probe run, rand seeded with probe_seed) it records, for every draw from random_utils::rand,
 // the stride of the down-sampling merge that made it (ratio of the two k values at the time of the merge).
-struct QueryGrid { bool on = false; V lo = 0, hi = 0; std::vector<std::vector<uint64_t>> le, lt; };  // n * get_rank(q) per slot and query
+struct QueryGrid { bool on = false; V lo = 0, hi = 0; std::vector<std::vector<uint64_t>> le, lt; std::vector<std::vector<char>> exact_le, exact_lt; };  // n * get_rank(q) per slot and query; "the sketch claims this rank is exact"
+
+// REQ publishes, per rank, an interval; a zero-width 3-sigma interval is the sketch's claim that the rank is exact (accurate end)
+template <typename SK> struct ExactClaim { static bool at(const SK&, double) { return false; } };
+template <> struct ExactClaim<req_sketch<V>> { static bool at(const req_sketch<V>& sk, double rank) { return sk.get_rank_lower_bound(rank, 3) == rank && sk.get_rank_upper_bound(rank, 3) == rank; } };
 
 template <typename SK>
 void execute(const Scenario& sc, std::vector<std::vector<std::pair<V, uint64_t>>>& out, std::vector<uint64_t>& ns,
@@ -88,6 +92,7 @@ void execute(const Scenario& sc, std::vector<std::vector<std::pair<V, uint64_t>>
   if (grid && grid->on) {
     size_t nq = static_cast<size_t>(grid->hi - grid->lo + 1);
     grid->le.assign(sc.nslots, std::vector<uint64_t>(nq, 0)); grid->lt.assign(sc.nslots, std::vector<uint64_t>(nq, 0));
+    grid->exact_le.assign(sc.nslots, std::vector<char>(nq, 0)); grid->exact_lt.assign(sc.nslots, std::vector<char>(nq, 0));
     for (int i = 0; i < sc.nslots; ++i) {
       if (sk[i].is_empty()) continue;
       double dn = static_cast<double>(sk[i].get_n());
@@ -95,6 +100,8 @@ void execute(const Scenario& sc, std::vector<std::vector<std::pair<V, uint64_t>>
         V v = grid->lo + static_cast<V>(q);
         grid->le[i][q] = static_cast<uint64_t>(std::llround(sk[i].get_rank(v, true) * dn));
         grid->lt[i][q] = static_cast<uint64_t>(std::llround(sk[i].get_rank(v, false) * dn));
+        grid->exact_le[i][q] = ExactClaim<SK>::at(sk[i], sk[i].get_rank(v, true));
+        grid->exact_lt[i][q] = ExactClaim<SK>::at(sk[i], sk[i].get_rank(v, false));
       }
     }
   }
@@ -162,6 +169,18 @@ void run_family(const Scenario& sc0, const Case& cs) {
     for (auto s : found) seeds.push_back(static_cast<uint64_t>(s));
     vf::label("classic-stride-offsets-enumerated");
   }
+  // true counts per slot and query
+  std::vector<std::vector<uint64_t>> true_le(sc.nslots, std::vector<uint64_t>(nq, 0)), true_lt(sc.nslots, std::vector<uint64_t>(nq, 0));
+  for (int s = 0; s < sc.nslots; ++s) {
+    std::vector<uint64_t> cnt(nq + 1, 0);
+    for (V v : truth[s]) cnt[static_cast<size_t>(v - qlo)]++;
+    uint64_t run = 0;
+    for (size_t q = 0; q < nq; ++q) { true_lt[s][q] = run; run += cnt[q]; true_le[s][q] = run; }
+  }
+  uint64_t exact_claims = 0, zone_not_claimed = 0;
+  // REQ exact zone: 3k items (k * INIT_NUM_SECTIONS), only when every slot has the same k
+  uint64_t req_zone = 0;
+  if (sc.fam == REQ_HRA || sc.fam == REQ_LRA) { bool same = true; for (int i = 1; i < sc.nslots; ++i) same &= sc.ks[i] == sc.ks[0]; if (same) req_zone = 3ull * static_cast<uint64_t>(std::max(4, sc.ks[0] & ~1)); }
   // accumulate
   std::vector<std::vector<uint64_t>> acc_le(sc.nslots, std::vector<uint64_t>(nq, 0)), acc_lt(sc.nslots, std::vector<uint64_t>(nq, 0));
   std::vector<std::vector<uint64_t>> racc_le(sc.nslots, std::vector<uint64_t>(nq, 0)), racc_lt(sc.nslots, std::vector<uint64_t>(nq, 0));
@@ -175,7 +194,20 @@ void run_family(const Scenario& sc0, const Case& cs) {
       vf::rand_seed(seed);
       std::vector<std::vector<std::pair<V, uint64_t>>> out; std::vector<uint64_t> ns;
       execute<SK>(sc, out, ns, nullptr, 0, &grid);
-      for (int sl = 0; sl < sc.nslots; ++sl) for (size_t q = 0; q < nq; ++q) { racc_le[sl][q] += grid.le[sl][q]; racc_lt[sl][q] += grid.lt[sl][q]; }
+      for (int sl = 0; sl < sc.nslots; ++sl) for (size_t q = 0; q < nq; ++q) {
+        racc_le[sl][q] += grid.le[sl][q]; racc_lt[sl][q] += grid.lt[sl][q];
+        // REQ, in EVERY outcome: a query whose TRUE rank lies within 3k items of the accurate end (the zone in which the sketch publishes
+        // a zero-width interval: the never-compacted half of level 0 holds those items) is answered exactly
+        if (req_zone > 0) {
+          const uint64_t n = truth[sl].size();
+          const bool hra = sc.fam == REQ_HRA;
+          const bool zle = hra ? (n - true_le[sl][q] <= req_zone) : (true_le[sl][q] <= req_zone);
+          const bool zlt = hra ? (n - true_lt[sl][q] <= req_zone) : (true_lt[sl][q] <= req_zone);
+          if (zle) { ++exact_claims; VF_CHECK(grid.le[sl][q] == true_le[sl][q], "exact-zone-wrong", fam_name(sc.fam) << ": slot " << sl << " query " << (qlo + static_cast<V>(q)) << " (inclusive): n*rank = " << grid.le[sl][q] << ", true count " << true_le[sl][q] << " lies within " << req_zone << " items of the accurate end (outcome " << bits << ", n " << n << ")"); }
+          if (zlt) { ++exact_claims; VF_CHECK(grid.lt[sl][q] == true_lt[sl][q], "exact-zone-wrong", fam_name(sc.fam) << ": slot " << sl << " query " << (qlo + static_cast<V>(q)) << " (exclusive): n*rank = " << grid.lt[sl][q] << ", true count " << true_lt[sl][q] << " lies within " << req_zone << " items of the accurate end (outcome " << bits << ", n " << n << ")"); }
+          if ((zle && grid.exact_le[sl][q] == 0) || (zlt && grid.exact_lt[sl][q] == 0)) zone_not_claimed++;
+        }
+      }
       VF_CHECK(vf::coin_flips() == f, "flip-count-depends-on-outcome", fam_name(sc.fam) << ": outcome " << bits << " consumed " << vf::coin_flips() << " flips, the all-zero outcome " << f);
       if (!strides.empty()) VF_CHECK(rand_draws_since(seed, 64) == strides.size(), "rand-draw-count", "stride draws " << rand_draws_since(seed, 64) << " expected " << strides.size());
       for (int s = 0; s < sc.nslots; ++s) {
@@ -209,6 +241,8 @@ void run_family(const Scenario& sc0, const Case& cs) {
     }
   }
   vf::count("outcomes", outcomes);
+  vf::count("req-exact-zone-queries-checked", exact_claims);
+  vf::count("req-exact-zone-queries-without-zero-width-interval", zone_not_claimed);
   bool merged = false; for (auto& st : sc.steps) merged |= st.kind != 0;
   vf::label(std::string("family:") + fam_name(sc.fam));
   if (merged) vf::label("merge");
